@@ -13,7 +13,8 @@ def gen(wd):
         n = 1
         for d in dims: n *= d
         return n <= 16 and "struct" not in t.split("[")[0] or not dims
-    keep = [(n, t) for n, t in leaves if not GEOM.search(n.split(".")[-1]) and not GEOM.search(n) and small(t)]
+    # static_config.use_cpu_flags is masked with the detected CPU flags in the same function (C06's subject), not derived from core counts
+    keep = [(n, t) for n, t in leaves if not GEOM.search(n.split(".")[-1]) and not GEOM.search(n) and small(t) and n != "static_config.use_cpu_flags"]
     geom = [n for n, t in leaves if (n, t) not in keep]
     with open(os.path.join(wd, "c05_snapshot.inc"), "w") as f, open(os.path.join(wd, "c05_compare.inc"), "w") as g:
         for i, (n, t) in enumerate(keep):
@@ -31,7 +32,7 @@ META = {
     "outside": ["byte-identical output across core counts end to end"],
     "stubs": ["sysconf", "derive_input_resolution", "get_cpu_flags(_to_use)"], "explanation": ""}
 def queries(tier):
-    return [Query(name="only_geometry_written", harness="C05/geometry.c", gen=gen, unwind=140, funcs=[H + "load_default_buffer_configuration_settings", H + "set_parent_pcs"], timeout=1200, mem_gb=24,
+    return [Query(name="only_geometry_written", harness="C05/geometry.c", gen=gen, unwind=140, flags=["--object-bits", "12"], funcs=[H + "load_default_buffer_configuration_settings", H + "set_parent_pcs"], timeout=1200, mem_gb=24,
                   bound="arbitrary prior scs; logical processors 0..512 requested, 1..512 present, 1..2 groups, all resolution classes", what="no non-geometry field of the sequence control set is modified"),
             Query(name="core_count_clamped", harness="C05/clamp.c", unwind=4, funcs=[H + "set_parent_pcs"], timeout=300,
                   bound="all core counts, frame rates, hierarchical levels 0..5, resolution classes", what="picture-buffer count is positive and bounded for every core count")]
